@@ -46,6 +46,10 @@ class Hang(Exception):
     pass
 
 
+class InjectedError(Exception):
+    pass
+
+
 # ------------------------------------------------------------------------------------------------
 # the recorder (one history at a time)
 # ------------------------------------------------------------------------------------------------
@@ -126,7 +130,10 @@ def HOOK(k, o, key="", arg=None, st=""):
     if dec["adv"]:
         hs.stepTimingAsync(dec["adv"])
     if dec["raise"]:
-        raise RuntimeError("injected fault at %s.%s" % (o, k))
+        # the class of the exception must not matter (AttributeError looks like "hook not defined" to a careless getattr)
+        kinds = (RuntimeError, AttributeError, KeyError, ValueError, ZeroDivisionError, AssertionError, LookupError,
+                 TypeError, OSError, InjectedError, StopIteration, NotImplementedError)
+        raise kinds[(len(Rec.log) + len(k)) % len(kinds)]("injected fault at %s.%s" % (o, k))
     return dec["ret"]
 
 
@@ -161,9 +168,13 @@ def make_component(c, layout, variant):
         base_ns[a] = will_reset_to(77)
         ns[a] = plain[a]
 
+    initassign = layout.get("initassign", {}).get(c, [])    # markers whose name the constructor assigns as well
+
     def __init__(self):
         for a, v in plain.items():
             setattr(self, a, v)
+        for a in initassign:
+            setattr(self, a, 55)
     ns["__init__"] = __init__
 
     is_sm = c in layout.get("sm", [])
@@ -190,7 +201,7 @@ def make_component(c, layout, variant):
             ns[k] = f
     for g in layout["feedbacks"]:
         if g["o"] == c:
-            add_getter(ns, c, g["key"], variant, g.get("ty", "int"))
+            add_getter(ns, c, g["key"], variant, g.get("ty", "int"), g.get("sann", False))
     root = StateMachine if is_sm else object
     bases = (root,)
     if base_ns:
@@ -209,7 +220,12 @@ FB_ANN = {"int": int, "float": float, "bool": bool, "str": str, "struct": T2, "i
           "bool[]": tuple[bool, ...], "str[]": Sequence[str], "struct[]": list[T2]}
 
 
-def add_getter(ns, o, key, variant, ty="int"):
+# the same hints as strings (postponed evaluation, "from __future__ import annotations", quoted hints)
+FB_ANN_STR = {"int": "int", "float": "float", "bool": "bool", "str": "str", "struct": "T2", "int[]": "list[int]",
+              "float[]": "tuple[float, ...]", "bool[]": "tuple[bool, ...]", "str[]": "Sequence[str]", "struct[]": "list[T2]"}
+
+
+def add_getter(ns, o, key, variant, ty="int", sann=False):
     def getter(self):
         r = HOOK("feedback", o, key=key)
         if ty in ("int", "none"):
@@ -217,7 +233,7 @@ def add_getter(ns, o, key, variant, ty="int"):
         dom = FB_DOM[ty]
         return dom[r % len(dom)]
     if ty != "none":
-        getter.__annotations__ = {"return": FB_ANN[ty]}
+        getter.__annotations__ = {"return": FB_ANN_STR[ty] if sann else FB_ANN[ty]}
     if variant % 2 == 0:
         getter.__name__ = "get_" + key
         ns[getter.__name__] = feedback(getter)
@@ -283,7 +299,7 @@ def make_robot(layout, uid):
         base_ns[name] = mk(name)
     for g in layout["feedbacks"]:
         if g["o"] == "robot":
-            add_getter(base_ns, "robot", g["key"], uid, g.get("ty", "int"))
+            add_getter(base_ns, "robot", g["key"], uid, g.get("ty", "int"), g.get("sann", False))
     Base = type("Robot%d_Base" % uid, (MagicRobot,), base_ns)
     return type("Robot%d" % uid, (Base,), {"__annotations__": {c: classes[c] for c in comps[nbase:]}})
 
@@ -455,7 +471,7 @@ def gen_layout(rng, uid):
     n = rng.choice([1, 2, 2, 3])
     comps = ["c%d_%d" % (i, uid) for i in range(n)]
     has, resets, plain, inherit, fbs = {}, {}, {}, {}, []
-    redeclare, shadow = {}, {}
+    redeclare, shadow, initassign = {}, {}, {}
     for c in comps:
         has[c] = {k: rng.random() < 0.7 for k in ("setup", "on_enable", "on_disable")}
         nr = rng.choice([0, 1, 1, 2])
@@ -463,9 +479,11 @@ def gen_layout(rng, uid):
         inherit[c] = [a for a in resets[c] if rng.random() < 0.3]
         plain[c] = {"p": rng.randint(10, 19)}
         redeclare[c] = [a for a in resets[c] if a not in inherit[c] and rng.random() < 0.3]
+        initassign[c] = [a for a in resets[c] if rng.random() < 0.25]
         shadow[c] = ["p"] if rng.random() < 0.25 else []
         if rng.random() < 0.5:
-            fbs.append({"o": c, "key": rng.choice(["k_%s", "widget_%s", "budget_left_%s"]) % c, "ty": rng.choice(FB_TYPES)})
+            fbs.append({"o": c, "key": rng.choice(["k_%s", "widget_%s", "budget_left_%s"]) % c, "ty": rng.choice(FB_TYPES),
+                        "sann": rng.random() < 0.35})
     sm = [c for c in comps if rng.random() < 0.25]
     for c in sm:
         has[c]["on_enable"] = has[c]["on_disable"] = True     # StateMachine has both
@@ -477,13 +495,15 @@ def gen_layout(rng, uid):
         sameclass[b] = a
         has[b], resets[b], plain[b] = dict(has[a]), dict(resets[a]), dict(plain[a])
         inherit[b], redeclare[b], shadow[b] = list(inherit[a]), list(redeclare[a]), list(shadow[a])
+        initassign[b] = list(initassign[a])
         fbs = [g for g in fbs if g["o"] not in (a, b)]
         if a in sm and b not in sm:
             sm.append(b)
         if b in sm and a not in sm:
             sm.remove(b)
     if rng.random() < 0.4:
-        fbs.append({"o": "robot", "key": rng.choice(["rk_%d", "target_%d"]) % uid, "ty": rng.choice(FB_TYPES)})
+        fbs.append({"o": "robot", "key": rng.choice(["rk_%d", "target_%d"]) % uid, "ty": rng.choice(FB_TYPES),
+                    "sann": rng.random() < 0.35})
     nm = rng.choice([0, 1, 1, 2])
     modes = ["m%d_%d" % (i, uid) for i in range(nm)]
     defmode = rng.choice(modes + ["none"]) if modes else "none"
@@ -491,6 +511,7 @@ def gen_layout(rng, uid):
             "teleAuto": rng.random() < 0.5, "modes": modes, "defmode": defmode,
             "period": rng.choice([20000, 20000, 5000, 15625]),
             "inherit": inherit, "redeclare": redeclare, "shadow": shadow, "sm": sm, "sameclass": sameclass,
+            "initassign": initassign,
             "robot_split": rng.randint(0, n)}
 
 
